@@ -11,3 +11,14 @@ func VerifFlushXdsCache(c XdsCache) {
 		x.sds.Flush()
 	}
 }
+
+// VerifSetEndpointIndexCache makes the endpoint index invalidate the given cache in step with shard
+// changes. pilot/test/xds.NewFakeDiscoveryServer builds its DiscoveryServer (and the cache its
+// generators read) from one Environment and then swaps in the Environment of the config generator
+// test, whose endpoint index clears a different cache object; production (bootstrap) uses one cache
+// for both. The harness restores the production wiring with this.
+func VerifSetEndpointIndexCache(e *EndpointIndex, c XdsCache) {
+	e.mu.Lock()
+	e.cache = c
+	e.mu.Unlock()
+}
